@@ -293,6 +293,10 @@ fn cmd_replay_beh(a: &Args) {
 						ctx.c17(&canon, &mut viols)
 					}
 					"c08" => ctx.c08_insertions(&o, &mut viols),
+					"debug" => {
+						let dir = std::path::PathBuf::from(format!("{}/dump-{}-{}-{}", sink.replay_dir, std::process::id(), idx, vi));
+						ctx.debug_dump(&dir, &mut viols)
+					}
 					"slpp" => ctx.slpp_roundtrip(&comps, (idx + vi) % 2 == 0, &mut viols),
 					other => panic!("unknown check {}", other),
 				}
